@@ -127,7 +127,7 @@ def worker(args):
 
 def run(ctx):
     server_bin("rel")
-    nprog, mi = (40, 25) if ctx.quick else (1200, 60)
+    nprog, mi = (90, 25) if ctx.quick else (1200, 60)
     open_ids = frozenset(f["id"] for f in ctx.open_findings())
     replay_witnesses(ctx)
     for p in pmap(worker, [("%s/%d" % (ctx.seed, i), nprog, mi, open_ids) for i in range(NCPU)]): ctx.merge(p)
